@@ -59,4 +59,14 @@ def runNoHaltSettle (_inp : List String) (out : String) : Option Res :=
   some { agree := true, monitor := !sc.halted, nontrivial := decide (sc.snaps.length ≥ 20 ∧ !rounds.isEmpty),
          model := s!"blocks={sc.snaps.length} rounds={rounds.length}", note := sc.note }
 
+/-- family `nohaltslash` (C02): the slashing histories (reports, redelegation and undelegation between report and dispute, disputes of every
+    category on real, altered and invented reports, fees from stake, validators slashed for downtime or tombstoned for double signing,
+    deadlines crossed) never stop the chain -/
+def runNoHaltSlash (_inp : List String) (out : String) : Option Res :=
+  let halted := (out.splitOn " ;; ").any (fun r => r.startsWith "HALT" || r.startsWith "harnesspanic")
+  let blocks := ((out.splitOn " ;; ").filter (·.startsWith "N ")).length
+  let funded := (out.splitOn " ;; ").any (fun r => r.startsWith "X disp" && (r.splitOn ":").contains "ok")
+  some { agree := true, monitor := !halted, nontrivial := decide (blocks ≥ 20) && funded, model := s!"blocks={blocks}",
+         note := ((out.splitOn " ;; ").find? (fun r => r.startsWith "HALT" || r.startsWith "harnesspanic")).getD "" }
+
 end Driver
